@@ -6,9 +6,9 @@ git checkout -q -- . || exit 2
 git apply "$sd/patch.diff" || { echo "CONFIRM: patch does not apply"; exit 1; }
 ( cd tooling && GOFLAGS=-mod=mod GOPROXY=off go build ./... && GOFLAGS=-mod=mod GOPROXY=off go test -vet=off -count=1 ./... >/tmp/confirm_gotest.$$ 2>&1 ) ; t=$?
 grep -c "^ok" /tmp/confirm_gotest.$$; grep -E "^(FAIL|---)" /tmp/confirm_gotest.$$ | head; rm -f /tmp/confirm_gotest.$$
-sh "$sd/demo.sh" "$wt" >/tmp/confirm_demo.$$ 2>&1; d1=$?
+bash "$sd/demo.sh" "$wt" >/tmp/confirm_demo.$$ 2>&1; d1=$?
 git checkout -q -- .
-sh "$sd/demo.sh" "$wt" >/tmp/confirm_demo2.$$ 2>&1; d2=$?
+bash "$sd/demo.sh" "$wt" >/tmp/confirm_demo2.$$ 2>&1; d2=$?
 tail -3 /tmp/confirm_demo.$$; rm -f /tmp/confirm_demo.$$ /tmp/confirm_demo2.$$
 echo "CONFIRM: gotest_rc=$t demo_with_patch_rc=$d1 demo_clean_rc=$d2"
 [ $t -eq 0 ] && [ $d1 -ne 0 ] && [ $d2 -eq 0 ] && echo "CONFIRM: OK"
